@@ -165,7 +165,14 @@ func protoCheck(s string, t *doc.Tree, ctx int, extra int) (res protoResult) {
 	if err != nil {
 		return fail("compile-reverse", "compiles", err.Error())
 	}
-	rseq := eng.Drain(re.Select(doc.NewNav(t, ctx, b)), limit)
+	rit := re.Select(doc.NewNav(t, ctx, b))
+	rseq := eng.Drain(rit, limit)
+	for k := 0; k < extra; k++ {
+		res.transitions++
+		if rit.MoveNext() {
+			return fail("reverse-movenext-after-false", "false forever", fmt.Sprintf("true on extra call %d", k+1))
+		}
+	}
 	want := make([]int, len(seq))
 	for i, x := range seq {
 		want[len(seq)-1-i] = x
@@ -373,6 +380,17 @@ func c12Spaces(tier string) []*explore.Space {
 			u2 = append(u2, gen.B("|", a, b))
 		}
 	}
+	// reverse(E) and other iterator-producing wrappers are node-set expressions
+	// too: they go through the same protocol walk
+	var wrapped []gen.Expr
+	for i, e := range s1 {
+		if i%3 == 0 {
+			wrapped = append(wrapped, gen.F("reverse", e), gen.F("reverse", gen.F("reverse", e)), &gen.Group{E: e}, &gen.Filter{Primary: &gen.Group{E: e}, Preds: []gen.Expr{gen.F("true")}})
+		}
+	}
+	for _, e := range stratum(u2, 11) {
+		wrapped = append(wrapped, gen.F("reverse", e))
+	}
 	t2 := func() []*doc.Tree { return uniT(2) }
 	t3 := func() []*doc.Tree { return uniT(3) }
 	t4 := func() []*doc.Tree { return uniT(4) }
@@ -384,6 +402,7 @@ func c12Spaces(tier string) []*explore.Space {
 	wordExprs = append(wordExprs, stratum(s2, 97)...)
 	wordExprs = append(wordExprs, stratum(p1, 23)...)
 	wordExprs = append(wordExprs, stratum(u2, 29)...)
+	wordExprs = append(wordExprs, stratum(wrapped, 5)...)
 	if tier == "thorough" {
 		return []*explore.Space{
 			exprSpace("O1xT5", "flat paths <= 3 steps x T(<=5): document order, no duplicates", asExprs(flatPaths(3)), t5, seq),
@@ -392,7 +411,7 @@ func c12Spaces(tier string) []*explore.Space {
 			exprSpace("O2xT5", "single predicate-free descendant steps x T(<=5)", o2, t5, seq),
 			exprSpace("O3xT4", "flat paths with boolean / leading positional predicates x T(<=4)", o3, t4, seq),
 			exprSpace("O3xM23", "flat paths with predicates x multi-parent universe", o3, m23, seq),
-			protoSpace("R1xT3", "iterator protocol + Evaluate/count/reverse relations: S1, S2/4, P1, U2 slices x T(<=3)", append(append(append(append([]gen.Expr{}, s1...), stratum(s2, 4)...), p1...), u2...), t3, false),
+			protoSpace("R1xT3", "iterator protocol + Evaluate/count/reverse relations: S1, S2/4, P1, U2 slices x T(<=3)", append(append(append(append(append([]gen.Expr{}, s1...), stratum(s2, 4)...), p1...), u2...), wrapped...), t3, false),
 			protoSpace("R2xT3", "every word over {MoveNext,Current} of length <= len+3 x T(<=3)", wordExprs, t3, true),
 		}
 	}
@@ -401,7 +420,7 @@ func c12Spaces(tier string) []*explore.Space {
 		exprSpace("O1xM22", "flat paths <= 3 steps x multi-parent universe", asExprs(flatPaths(3)), m22, seq),
 		exprSpace("O2xT4", "single predicate-free descendant steps x T(<=4)", o2, t4, seq),
 		exprSpace("O3xT3", "flat paths with boolean / leading positional predicates x T(<=3)", o3, t3, seq),
-		protoSpace("R1xT3", "iterator protocol + Evaluate/count/reverse relations: S1, S2/16, P1/4, U2/4 slices x T(<=3)", append(append(append(append([]gen.Expr{}, s1...), stratum(s2, 16)...), stratum(p1, 4)...), stratum(u2, 4)...), t3, false),
+		protoSpace("R1xT3", "iterator protocol + Evaluate/count/reverse relations: S1, S2/16, P1/4, U2/4 slices x T(<=3)", append(append(append(append(append([]gen.Expr{}, s1...), stratum(s2, 16)...), stratum(p1, 4)...), stratum(u2, 4)...), wrapped...), t3, false),
 		protoSpace("R2xT2", "every word over {MoveNext,Current} of length <= len+3 x T(<=2)", wordExprs, t2, true),
 	}
 }
